@@ -162,8 +162,9 @@ class Skeleton(object):
                     return
                 if fn in ('csv.writer', 'csv.DictWriter') and v.args and isinstance(v.args[0], ast.Name) \
                         and v.args[0].id in self.sinks:
-                    extra = ', '.join('**' + self.nexpr(k.value) if k.arg is None else '%s=%s' % (k.arg, self.nexpr(k.value))
-                                      for k in v.keywords)
+                    extra = ', '.join([self.nexpr(a) for a in v.args[1:]] +
+                                      ['**' + self.nexpr(k.value) if k.arg is None else '%s=%s' % (k.arg, self.nexpr(k.value))
+                                       for k in v.keywords])
                     self.effects.append(Effect('csv.writer', extra, guards, region, v))
                     self.sinks.add(name)
                     return
@@ -232,8 +233,9 @@ class Skeleton(object):
         if isinstance(f, ast.Attribute) and isinstance(f.value, ast.Call) and norm(f.value.func) in ('csv.writer',) and \
                 f.value.args and isinstance(f.value.args[0], ast.Name) and f.value.args[0].id in self.sinks:
             w = f.value
-            extra = ', '.join('**' + self.nexpr(k.value) if k.arg is None else '%s=%s' % (k.arg, self.nexpr(k.value))
-                              for k in w.keywords)
+            extra = ', '.join([self.nexpr(a) for a in w.args[1:]] +
+                              ['**' + self.nexpr(k.value) if k.arg is None else '%s=%s' % (k.arg, self.nexpr(k.value))
+                               for k in w.keywords])
             self.effects.append(Effect('csv.writer', extra, guards, region, w))
             if f.attr == 'writerows' and self._writerows(c, guards, region):
                 return
